@@ -27,6 +27,16 @@ class Sub(param.Parameterized):
         self.calls.append(('Sub.on_x', self.x))
 
 
+# hook called from inside the watcher callbacks of the model classes (copies taken in the middle of a dispatch);
+# None outside the `cb*` copy contexts
+_HOOK = None
+
+
+def _hook(o, where):
+    if _HOOK is not None:
+        _HOOK(o, where)
+
+
 class Plain(param.Parameterized):
     """no dependency on a sub-object parameter"""
     v = param.Number(default=0, bounds=(-100, 100))
@@ -43,6 +53,7 @@ class Plain(param.Parameterized):
     @param.depends('v', watch=True)
     def on_v(self):
         self.calls.append(('on_v', self.v))
+        _hook(self, 'on_v')
 
     @param.depends('lst', 's', watch=True)
     def on_lst_s(self):
@@ -50,6 +61,7 @@ class Plain(param.Parameterized):
 
     def user_cb(self, *events):
         self.calls.append(('user_cb', [(e.name, e.new) for e in events]))
+        _hook(self, 'user_cb')
 
 
 class Main(Plain):
@@ -58,6 +70,53 @@ class Main(Plain):
     @param.depends('a.x', watch=True)
     def on_ax(self):
         self.calls.append(('on_ax', None if self.a is None else self.a.x))
+
+
+class Multi(Plain):
+    """dependencies on several parameters at once, a queued dependency; user watchers on several parameters"""
+    p = param.Number(default=0)
+    q = param.Number(default=0)
+    r = param.Number(default=0)
+    w = param.Number(default=0)
+
+    @param.depends('p', 'q', watch=True)
+    def on_pq(self):
+        self.calls.append(('on_pq', self.p, self.q))
+        _hook(self, 'on_pq')
+
+    @param.depends('p', 'q', 'r', watch=True)
+    def on_pqr(self):
+        self.calls.append(('on_pqr', self.p, self.q, self.r))
+
+    @param.depends('p', watch=True)
+    def on_p(self):
+        self.calls.append(('on_p', self.p))
+
+    @param.depends('w', watch='queued')
+    def on_w(self):
+        self.calls.append(('on_w', self.w))
+        _hook(self, 'on_w')
+
+
+# ordinary attributes to be set by Attr.__init__ BEFORE Parameterized.__init__ runs: [(name, value kind)]
+_EARLY = []
+
+
+class Attr(Plain):
+    """carrier of ordinary (non-Parameter) instance attributes of arbitrary names; the attributes listed in
+    `_EARLY` are set before Parameterized.__init__ (i.e. before the private namespace exists)"""
+
+    def __init__(self, **kw):
+        for n, kind in _EARLY:
+            setattr(self, n, make_value(kind, None))
+        super().__init__(**kw)
+
+
+class Box:
+    """plain mutable object used as an attribute value"""
+
+    def __init__(self, *items):
+        self.items = list(items)
 
 
 # ---- ordinary attributes stored in __slots__ declared by plain (non-Parameterized) classes in the MRO ----
@@ -108,7 +167,7 @@ def fn_watch(*events):
         e.obj.calls.append(('fn_watch', e.name, e.new))
 
 
-CLASSES = {'Plain': Plain, 'Main': Main, 'SlotFirst': SlotFirst, 'SlotLast': SlotLast, 'SlotDeep': SlotDeep,
+CLASSES = {'Plain': Plain, 'Main': Main, 'Multi': Multi, 'Attr': Attr, 'SlotFirst': SlotFirst, 'SlotLast': SlotLast, 'SlotDeep': SlotDeep,
            'SlotSub': SlotSub}
 SLOT_CLASSES = ('SlotFirst', 'SlotLast', 'SlotDeep', 'SlotSub')
 
@@ -172,7 +231,13 @@ def pre_watchfn(o):
     return 'ok'
 
 
-def pre_attr(o):
+def pre_attr(o, arg=None):
+    """attr -- the ordinary attribute `extra` with mutable content;  attr:<name>=<kind> -- one ordinary attribute of
+    the given name holding a fresh value of the given kind (ATTR_NAMES x VALUE_KINDS below)"""
+    if arg is not None:
+        n, kind = arg.rsplit('=', 1)
+        setattr(o, n, make_value(kind, o))
+        return 'ok'
     o.extra = {'k': [1]}
     return 'ok'
 
@@ -271,21 +336,244 @@ def post_slot(o):
 POST_OPS = {'set': post_set, 'mut': post_mut, 'pedit': post_pedit, 'pmut': post_pmut, 'attach': post_attach,
             'subset': post_subset, 'attr': post_attr, 'const': post_const, 'watch': post_watch}
 
+
+# ---- family "ordinary attributes": attribute names x values --------------------------------------------------
+# Every name other than `_param__private` (the private namespace itself) and `param` (the accessor property, not
+# assignable) is an ordinary attribute and must survive -- also the names under which earlier versions of param
+# kept their bookkeeping in the instance __dict__.
+ATTR_NAMES = (
+    # bookkeeping names of earlier param versions (ordinary names today)
+    'initialized', '_param_watchers', '_dynamic_watchers', '_instance__params', '_parameters_state',
+    '_instance__params_state', '_param_watchers_state',
+    # private / underscore-prefixed
+    '_cache', '_x', '_', '__', '_v', '_name', '_lst', '__x', '__tag__', '_Attr__secret', '_Plain__secret',
+    # look like param's bookkeeping but are not identical to it
+    '_param', '_param_', '_params', '_param_x', '_param__privat', '_param__private_', '_param__private2',
+    '_param_watcher', '_param_watchers_', '_dynamic_watcher', '_dynamic_watchers_', '_instance__param',
+    '_instance__params_', '_parameters_state_', '_parameters', 'initialized_', '_initialized', 'param_', 'Param',
+    '_param__values', '_param__watchers',
+    # names of the slots of the private namespace / of the Parameters accessor state
+    'parameters_state', 'dynamic_watchers', 'params', 'async_refs', 'refs', 'ref_watchers', 'syncing', 'watchers',
+    'values', 'explicit_no_refs', '_BATCH_WATCH', '_TRIGGER', '_events', '_watchers', 'BATCH_WATCH', 'events',
+    'self', 'self_', 'cls', '_cls', 'self_or_cls',
+    # parameter names of other classes, near-misses of own parameter names, odd but legal names
+    'x', 'y', 'p', 'w', 'v_', 'name_', 'Name', 'X', 'a1', 'lambda', 'z' * 40, '0',
+)
+
+IMMUTABLE_KINDS = ('int', 'zero', 'none', 'false', 'true', 'float', 'str', 'estr', 'tuple', 'etuple', 'bytes',
+                   'frozenset', 'type', 'func')
+MUTABLE_KINDS = ('list', 'elist', 'nested', 'dict', 'edict', 'set', 'bytearray', 'tuplelist', 'box', 'sub', 'pobj')
+# values that refer back into the object itself (internal aliasing must be preserved by a copy)
+GRAPH_KINDS = ('self', 'alias', 'bound', 'watcher')
+VALUE_KINDS = IMMUTABLE_KINDS + MUTABLE_KINDS + GRAPH_KINDS
+
+
+def make_value(kind, o):
+    """a fresh value of the given kind; the GRAPH kinds need the (initialised) object `o`"""
+    if kind in GRAPH_KINDS and o is None:
+        kind = 'nested'                    # attributes set before Parameterized.__init__: no object graph yet
+    if kind == 'self':
+        return o
+    if kind == 'alias':
+        return o.lst                       # the very list that is the value of parameter `lst`
+    if kind == 'bound':
+        return o.user_cb
+    if kind == 'watcher':
+        return o.param.watch(fn_watch, ['v'])      # the handle of a user watcher kept as an attribute
+    return {
+        'int': lambda: 7, 'zero': lambda: 0, 'none': lambda: None, 'false': lambda: False, 'true': lambda: True,
+        'float': lambda: 2.5, 'str': lambda: 'text', 'estr': lambda: '', 'tuple': lambda: (1, 'a', (2,)),
+        'etuple': lambda: (), 'bytes': lambda: b'ab', 'frozenset': lambda: frozenset((1, 2)), 'type': lambda: Sub,
+        'func': lambda: fn_watch,
+        'list': lambda: [1, 2], 'elist': lambda: [], 'nested': lambda: {'k': [1, {'j': [2]}]},
+        'dict': lambda: {'k': 1}, 'edict': lambda: {}, 'set': lambda: {1, 2}, 'bytearray': lambda: bytearray(b'ab'),
+        'tuplelist': lambda: ([1], 'a'), 'box': lambda: Box(1, [2]), 'sub': lambda: Sub(name='A', x=1),
+        'pobj': lambda: param.Number(default=3, bounds=(0, 5), doc='free-standing Parameter object'),
+    }[kind]()
+
+
+def _kind_at(i, shift):
+    return VALUE_KINDS[(i + shift) % len(VALUE_KINDS)]
+
+
+def pre_attrs(o, arg):
+    """attrs:<shift> -- every name of ATTR_NAMES at once, name i carrying value kind (i + shift) mod #kinds
+    (all (name, kind) pairs are covered by the #kinds shifts)"""
+    for i, n in enumerate(ATTR_NAMES):
+        setattr(o, n, make_value(_kind_at(i, int(arg)), o))
+    return 'ok'
+
+
+def _early_list(pre):
+    """the attributes that the `early:` / `earlys:` operations of a pre-history put in front of __init__"""
+    out = []
+    for op in pre:
+        if op.startswith('early:'):
+            n, kind = op[len('early:'):].rsplit('=', 1)
+            out.append((n, kind))
+        elif op.startswith('earlys:'):
+            out.extend((n, _kind_at(i, int(op[len('earlys:'):]))) for i, n in enumerate(ATTR_NAMES))
+    return out
+
+
+def pre_early(o, arg):
+    return 'ok' if isinstance(o, Attr) else SKIP       # done by build() through Attr.__init__
+
+
+def _ordinary(o):
+    return [k for k in sorted(o.__dict__) if k not in ('_param__private', 'calls')]
+
+
+def _mutate(v, seen):
+    """grow every mutable object reachable from an attribute value in place"""
+    if id(v) in seen:
+        return
+    seen.add(id(v))
+    if isinstance(v, list):
+        for y in list(v):
+            _mutate(y, seen)
+        v.append('m')
+    elif isinstance(v, dict):
+        for y in list(v.values()):
+            _mutate(y, seen)
+        v['m'] = ['m']
+    elif isinstance(v, set):
+        v.add('m')
+    elif isinstance(v, bytearray):
+        v.append(109)
+    elif isinstance(v, Box):
+        v.items.append('m')
+    elif isinstance(v, Sub):
+        v.x = v.x + 1
+    elif isinstance(v, param.Parameter):
+        v.doc = (v.doc or '') + 'm'
+    elif isinstance(v, tuple) and not hasattr(v, '_fields'):
+        for y in v:
+            _mutate(y, seen)
+
+
+def post_amut(o):
+    """in-place mutation of every mutable ordinary attribute value"""
+    seen = {id(o)}
+    for k in _ordinary(o):
+        _mutate(o.__dict__[k], seen)
+    return 'ok'
+
+
+def post_aset(o):
+    """rebind every ordinary attribute"""
+    for k in _ordinary(o):
+        setattr(o, k, ['new', k])
+    return 'ok'
+
+
+def post_adel(o):
+    """delete every ordinary attribute"""
+    for k in _ordinary(o):
+        delattr(o, k)
+    return 'ok'
+
+
+ATTR_PRE_OPS = {'attr': pre_attr, 'attrs': pre_attrs, 'early': pre_early, 'earlys': pre_early,
+                'set': pre_set, 'watch': pre_watch, 'pedit': pre_pedit}
+ATTR_POST_OPS = {'amut': post_amut, 'aset': post_aset, 'adel': post_adel, 'set': post_set, 'mut': post_mut}
+
+
+# ---- family "several parameters at once" (class Multi) ----------------------------------------------------------
+def op_upd2(o):
+    return _try(lambda: o.param.update(p=o.p + 1, q=o.q + 1))
+
+
+def op_upd3(o):
+    return _try(lambda: o.param.update(p=o.p + 1, q=o.q + 1, r=o.r + 1))
+
+
+def op_updvp(o):
+    return _try(lambda: o.param.update(v=o.v + 1, p=o.p + 1))
+
+
+def op_batch2(o):
+    def f():
+        with param.parameterized.batch_call_watchers(o):
+            o.p = o.p + 1
+            o.q = o.q + 1
+    return _try(f)
+
+
+def op_trig2(o):
+    return _try(lambda: o.param.trigger('p', 'q'))
+
+
+def op_setp(o):
+    return _set(o, 'p', o.p + 1)
+
+
+def op_seteach(o):
+    """the parameters of the multi-parameter dependencies one after the other (each registration must work)"""
+    return _set(o, 'p', o.p + 1) + ',' + _set(o, 'q', o.q + 1) + ',' + _set(o, 'r', o.r + 1)
+
+
+def op_setw(o):
+    return _set(o, 'w', o.w + 1)
+
+
+def op_same(o):
+    """assign the current values again: nothing changes, no watcher may run"""
+    return _set(o, 'v', o.v) + ',' + _set(o, 'p', o.p)
+
+
+def op_watchm(o):
+    o.param.watch(o.user_cb, ['p', 'q'])
+    return 'ok'
+
+
+def op_watchfn2(o):
+    o.param.watch(fn_watch, ['p', 'q', 'r'])
+    return 'ok'
+
+
+MULTI_PRE_OPS = {'upd2': op_upd2, 'setp': op_setp, 'setw': op_setw, 'watchm': op_watchm, 'watchfn2': op_watchfn2}
+MULTI_POST_OPS = {'upd2': op_upd2, 'upd3': op_upd3, 'updvp': op_updvp, 'batch2': op_batch2, 'trig2': op_trig2,
+                  'setp': op_setp, 'seteach': op_seteach, 'same': op_same, 'setw': op_setw, 'watchm': op_watchm}
+# copies taken in the middle of a dispatch (class Multi, contexts CTXS below)
+CTX_PRE_OPS = {'set': pre_set, 'watch': pre_watch, 'watchm': op_watchm, 'upd2': op_upd2}
+# (no operation here changes two parameters of one multi-parameter dependency: that is the Multi family's business)
+CTX_POST_OPS = {'set': post_set, 'same': op_same, 'updvp': op_updvp, 'setw': op_setw, 'setp': op_setp}
+
 # the alphabets of the slotted model classes (the other operations are covered on Plain / Main)
 SLOT_PRE_OPS = {'slot': pre_slot, 'slotpart': pre_slotpart, 'attr': pre_attr, 'set': pre_set, 'watch': pre_watch}
 SLOT_POST_OPS = {'slot': post_slot, 'attr': post_attr, 'set': post_set, 'mut': post_mut}
 _ALL_PRE = dict(PRE_OPS, **SLOT_PRE_OPS)
 _ALL_POST = dict(POST_OPS, **SLOT_POST_OPS)
+for _t in (ATTR_PRE_OPS, MULTI_PRE_OPS, CTX_PRE_OPS):
+    for _k, _f in _t.items():
+        assert _ALL_PRE.setdefault(_k, _f) is _f, _k
+for _t in (ATTR_POST_OPS, MULTI_POST_OPS, CTX_POST_OPS):
+    for _k, _f in _t.items():
+        assert _ALL_POST.setdefault(_k, _f) is _f, _k
+
+
+def _call(table, op, o):
+    """operations are named `op` or `op:argument`"""
+    if ':' in op:
+        base, arg = op.split(':', 1)
+        return table[base](o, arg)
+    return table[op](o)
 
 MECHS = ('deepcopy', 'pickle2', 'pickle3', 'pickle4', 'pickle5')
 
 
 def build(cname, pre):
     """fresh object of the model class driven through the pre-history; None when not applicable"""
-    o = CLASSES[cname](name='M')
+    early = _early_list(pre)
+    _EARLY[:] = early
+    try:
+        o = CLASSES[cname.partition('@')[0]](name='M')
+    finally:
+        _EARLY[:] = []
     out = []
     for op in pre:
-        r = _ALL_PRE[op](o)
+        r = _call(_ALL_PRE, op, o)
         if r == SKIP:
             return None, None
         out.append((op, r))
@@ -295,7 +583,7 @@ def build(cname, pre):
 def apply_post(o, post):
     out = []
     for op in post:
-        r = _ALL_POST[op](o)
+        r = _call(_ALL_POST, op, o)
         if r == SKIP:
             return None
         out.append((op, r))
@@ -317,8 +605,13 @@ META = ('default', 'doc', 'bounds', 'inclusive_bounds', 'softbounds', 'step', 'c
 _MISSING = '<missing>'
 
 
+_SNAP_STACK = []        # ids of the Parameterized objects whose snapshot is being taken (reference cycles)
+
+
 def plain(x):
     if isinstance(x, param.Parameterized):
+        if id(x) in _SNAP_STACK:           # a reference back to an enclosing object: position, not identity
+            return '<enclosing object %d level(s) up>' % (len(_SNAP_STACK) - _SNAP_STACK.index(id(x)))
         return snap(x)
     if isinstance(x, (list, tuple)):
         return [type(x).__name__] + [plain(y) for y in x]
@@ -328,6 +621,18 @@ def plain(x):
         return x.__name__
     if x is None or isinstance(x, (bool, int, float, str)):
         return x
+    if isinstance(x, (set, frozenset)):
+        return [type(x).__name__] + sorted(repr(plain(y)) for y in x)
+    if isinstance(x, (bytes, bytearray)):
+        return [type(x).__name__, repr(bytes(x))]
+    if isinstance(x, Box):
+        return {'<Box>': plain(x.items)}
+    if isinstance(x, param.Parameter):
+        return {'<Parameter>': type(x).__name__, 'meta': _meta(x)}
+    if hasattr(x, '__self__') and hasattr(x, '__func__'):      # bound method: which object is it bound to?
+        return {'<bound method>': x.__func__.__name__, 'of': plain(x.__self__)}
+    if callable(x) and hasattr(x, '__qualname__'):
+        return '<function %s>' % x.__qualname__
     return repr(type(x))
 
 
@@ -351,22 +656,26 @@ def snap(o):
     Does not perturb the object: objects('existing') never instantiates per-instance Parameters.
     A Parameter's attributes are listed only where they differ from the class-level Parameter (an
     unedited per-instance copy is not observably different from having none)."""
-    pobjs = o.param.objects('existing')
-    cls = type(o)
-    meta = {}
-    for n, p in pobjs.items():
-        if p is not cls.param.objects('existing')[n]:
-            m = _meta(p)
-            cm = _class_meta(cls, n)
-            if m != cm:
-                meta[n] = {s: v for s, v in m.items() if v != cm[s]}
-    return {
-        'class': cls.__name__,
-        'values': {n: plain(getattr(o, n)) for n in sorted(pobjs)},
-        'meta': meta,
-        'attrs': {k: plain(v) for k, v in sorted(o.__dict__.items()) if k != '_param__private'},
-        'slots': {n: (plain(getattr(o, n)) if hasattr(o, n) else '<unset>') for n in slot_names(cls)},
-    }
+    _SNAP_STACK.append(id(o))
+    try:
+        pobjs = o.param.objects('existing')
+        cls = type(o)
+        meta = {}
+        for n, p in pobjs.items():
+            if p is not cls.param.objects('existing')[n]:
+                m = _meta(p)
+                cm = _class_meta(cls, n)
+                if m != cm:
+                    meta[n] = {s: v for s, v in m.items() if v != cm[s]}
+        return {
+            'class': cls.__name__,
+            'values': {n: plain(getattr(o, n)) for n in sorted(pobjs)},
+            'meta': meta,
+            'attrs': {k: plain(v) for k, v in sorted(o.__dict__.items()) if k != '_param__private'},
+            'slots': {n: (plain(getattr(o, n)) if hasattr(o, n) else '<unset>') for n in slot_names(cls)},
+        }
+    finally:
+        _SNAP_STACK.pop()
 
 
 def diff(a, b, path=''):
@@ -390,6 +699,25 @@ def diff(a, b, path=''):
                 return d.lstrip('.')
         return None
     return None if a == b else (path.lstrip('.') or '.')
+
+
+def _is_subseq(a, b):
+    it = iter(b)
+    return all(any(x == y for y in it) for x in a)
+
+
+def _dpath(d, exp, got):
+    """a difference in an invocation log is qualified: [missing] (calls that an uncopied object makes are not made),
+    [extra] (all expected calls plus further ones) or [differs]"""
+    if d and d.endswith('attrs.calls'):
+        e, g = _at(exp, d), _at(got, d)
+        if isinstance(e, list) and isinstance(g, list):
+            if len(g) < len(e) and _is_subseq(g, e):
+                return d + '[missing]'
+            if len(g) > len(e) and _is_subseq(e, g):
+                return d + '[extra]'
+            return d + '[differs]'
+    return d
 
 
 def _mutables(o):
@@ -420,6 +748,21 @@ def _mutables(o):
             found[id(x)] = where + ':' + type(x).__name__
             for i, y in enumerate(x.values() if isinstance(x, dict) else x):
                 walk(y, where + '[]')
+        elif isinstance(x, (bytearray, param.Parameter)):
+            found[id(x)] = where + ':' + type(x).__name__
+        elif isinstance(x, Box):
+            if id(x) in found:
+                return
+            found[id(x)] = where + ':Box'
+            walk(x.items, where + '.items')
+        elif isinstance(x, tuple) and depth[0] < 20:    # immutable itself, may hold mutable objects
+            depth[0] += 1
+            for y in x:
+                walk(y, where + '()')
+            depth[0] -= 1
+        elif hasattr(x, '__self__') and hasattr(x, '__func__') and isinstance(x.__self__, param.Parameterized):
+            walk(x.__self__, where + '.__self__')
+    depth = [0]
     walk(o, 'obj')
     return found
 
@@ -434,6 +777,8 @@ def shared_mutables(o, c):
 # ------------------------------------------------------------------------------------------------
 def reference(cname, pre, post):
     """what an object that is never copied looks like before / after `post` (None: not applicable)"""
+    if '@' in cname:
+        return ctx_reference(cname, pre, post)
     ref0, _ = build(cname, pre)
     if ref0 is None:
         return None
@@ -457,6 +802,8 @@ def run_scenario(cname, pre, mech, post, side, ref=None):
         ref = reference(cname, pre, post)      # (the layer passes a cached one)
     if ref is None:
         return None
+    if '@' in cname:
+        return run_ctx_scenario(cname, pre, mech, post, ref)
     e_pre, ref_out, e_post = ref
     o, _ = build(cname, pre)
     res = []
@@ -468,12 +815,16 @@ def run_scenario(cname, pre, mech, post, side, ref=None):
     d = diff(e_pre, snap(o))
     if d:
         res.append(('C17/copy/original-undisturbed', d, '-', 'copying changed the original at %s' % d))
-    sc = snap(c)
+    try:
+        sc = snap(c)
+        sh = shared_mutables(o, c)
+    except Exception as e:
+        return res + [('C17/copy/equal-at-copy', 'unusable:' + type(e).__name__, '-', 'the copy cannot even be '
+                       'inspected (values / Parameters / attributes): %s: %s' % (type(e).__name__, e))]
     d = diff(e_pre, sc)
     if d:
         res.append(('C17/copy/equal-at-copy', d, '-', 'the copy differs from the original at %s: original %r copy %r'
                     % (d, _at(e_pre, d), _at(sc, d))))
-    sh = shared_mutables(o, c)
     if sh:
         res.append(('C17/copy/no-shared-mutable', sh[0].split(':')[0], '-',
                     'mutable objects shared by identity: %r' % sh[:5]))
@@ -496,16 +847,200 @@ def run_scenario(cname, pre, mech, post, side, ref=None):
         s1 = snap(driven)
         d = diff(e_post, s1)
         if d:
-            res.append(('C17/after/faithful', d, sd_, 'after %r on the %s: %s is %r, an uncopied object has %r'
-                        % (list(post), sd_, d, _at(s1, d), _at(e_post, d))))
+            res.append(('C17/after/faithful', _dpath(d, e_post, s1), sd_, 'after %r on the %s: %s is %r, an uncopied '
+                        'object has %r' % (list(post), sd_, d, _at(s1, d), _at(e_post, d))))
         s2 = snap(other)
         d = diff(e_other, s2)
         if d:
-            res.append(('C17/after/independent', d, sd_, 'after %r on the %s the %s changed at %s: %r -> %r'
-                        % (list(post), sd_, oname, d, _at(e_other, d), _at(s2, d))))
+            res.append(('C17/after/independent', _dpath(d, e_other, s2), sd_, 'after %r on the %s the %s changed at '
+                        '%s: %r -> %r' % (list(post), sd_, oname, d, _at(e_other, d), _at(s2, d))))
         if res:
             return res
         first_done = True
+    return res
+
+
+# ------------------------------------------------------------------------------------------------
+# copies taken in the middle of a dispatch: inside a batch (nothing / something queued), inside discard_events,
+# inside a watcher callback (plain set, update of several parameters, queued dependency, trigger, user watcher)
+# ------------------------------------------------------------------------------------------------
+CTXS = ('batch', 'batchq', 'batchnest', 'discard', 'cbset', 'cbupd', 'cbqueued', 'cbtrig', 'cbuser')
+_CB = {'cbset': ('on_v', lambda o: setattr(o, 'v', 7)),
+       'cbupd': ('on_pq', lambda o: o.param.update(v=7, p=7, q=7)),
+       'cbqueued': ('on_w', lambda o: setattr(o, 'w', 7)),
+       'cbtrig': ('on_v', lambda o: o.param.trigger('v')),
+       'cbuser': ('user_cb', lambda o: setattr(o, 'v', 7))}
+
+
+def in_context(o, ctx, at_copy):
+    """Drive `o` into the context, call at_copy(o) exactly once at the copy point, leave the context.
+    False when the copy point is not reached (`cbuser` without a user watcher)."""
+    global _HOOK
+    P = param.parameterized
+    done = []
+
+    def point(x):
+        done.append(1)
+        at_copy(x)
+    if ctx == 'batch':
+        with P.batch_call_watchers(o):
+            point(o)
+    elif ctx == 'batchq':
+        with P.batch_call_watchers(o):
+            o.v = 7
+            o.p = 7
+            point(o)
+    elif ctx == 'batchnest':
+        with P.batch_call_watchers(o):
+            o.v = 7
+            with P.batch_call_watchers(o):
+                o.p = 7
+                point(o)
+    elif ctx == 'discard':
+        with P.discard_events(o):
+            o.v = 7
+            point(o)
+    else:
+        where, fire = _CB[ctx]
+
+        def hook(x, w):
+            if x is o and w == where and not done:
+                point(x)
+        _HOOK = hook
+        try:
+            fire(o)
+        finally:
+            _HOOK = None
+    return bool(done)
+
+
+def _calls(s):
+    return s['attrs']['calls']
+
+
+def _with_calls(s, calls):
+    s = dict(s)
+    s['attrs'] = dict(s['attrs'], calls=calls)
+    return s
+
+
+def ctx_reference(cname, pre, post):
+    """the never-copied object: snapshot at the copy point, at the end of the context, after `post`"""
+    ctx = cname.partition('@')[2]
+    r, _ = build(cname, pre)
+    if r is None:
+        return None
+    marks = []
+    if not in_context(r, ctx, lambda x: marks.append(snap(x))):
+        return None
+    e_end = snap(r)
+    ref_out = apply_post(r, post)
+    if ref_out is None:
+        return None
+    return marks[0], e_end, ref_out, snap(r)
+
+
+def run_ctx_scenario(cname, pre, mech, post, ref):
+    """The copy is taken at the copy point of the context (see CTXS).  Expectations (lenient): at the copy point the
+    copy equals the original; what the original still delivers when the context ends reaches the original only
+    and the original behaves like an object that was never copied; the copy, driven through `post` afterwards
+    (outside any context), behaves like the never-copied object driven through `post` after the context -- where
+    the calls that were still pending at the copy point (made by the original between the copy point and the
+    end of the context) may or may not be made on the copy."""
+    ctx = cname.partition('@')[2]
+    e_at, e_end, ref_out, e_post = ref
+    L0, L1, L2 = _calls(e_at), _calls(e_end), _calls(e_post)
+    pending, later = L1[len(L0):], L2[len(L1):]
+    o, _ = build(cname, pre)
+    got = {}
+
+    def at_copy(x):
+        got['o_at'] = snap(x)
+        try:
+            got['c'] = make_copy(x, mech)
+        except Exception as e:
+            got['err'] = e
+            return
+        try:
+            got['c_at'] = snap(got['c'])
+        except Exception as e:
+            got['unusable'] = e
+    try:
+        in_context(o, ctx, at_copy)
+    except Exception as e:
+        got.setdefault('err', e)
+    if 'err' in got or 'c' not in got:
+        e = got.get('err')
+        return [('C17/copy/succeeds', type(e).__name__, '-', '%s of %s inside context %s after %r raised %s: %s'
+                 % (mech, cname, ctx, list(pre), type(e).__name__, e))]
+    c = got['c']
+    if 'unusable' in got:
+        e = got['unusable']
+        return [('C17/copy/equal-at-copy', 'unusable:' + type(e).__name__, '-', 'the copy cannot even be inspected '
+                 '(values / Parameters / attributes): %s: %s' % (type(e).__name__, e))]
+    res = []
+    d = diff(e_at, got['c_at'])
+    if d:
+        res.append(('C17/copy/equal-at-copy', _dpath(d, e_at, got['c_at']), '-', 'the copy differs from the original '
+                    'at %s: original %r copy %r' % (d, _at(e_at, d), _at(got['c_at'], d))))
+    so = snap(o)
+    d = diff(e_at, got['o_at']) or diff(e_end, so)
+    if d:
+        res.append(('C17/copy/original-undisturbed', _dpath(d, e_end, so), '-', 'copying inside the context changed '
+                    'what the original does until the end of the context, at %s: %r, uncopied %r'
+                    % (d, _at(so, d), _at(e_end, d))))
+    sc = snap(c)
+    d = diff(got['c_at'], sc)
+    if d:
+        res.append(('C17/after/independent', _dpath(d, got['c_at'], sc), 'ctx-exit', 'leaving the context on the '
+                    'original changed the copy at %s: %r -> %r' % (d, _at(got['c_at'], d), _at(sc, d))))
+    sh = shared_mutables(o, c)
+    if sh:
+        res.append(('C17/copy/no-shared-mutable', sh[0].split(':')[0], '-',
+                    'mutable objects shared by identity: %r' % sh[:5]))
+    if res:
+        return res
+    # ---- post-history on the copy
+    try:
+        out = apply_post(c, post)
+    except Exception as e:
+        return [('C17/after/faithful', 'exception:' + type(e).__name__, 'copy',
+                 'history %r on the copy raised %s: %s' % (list(post), type(e).__name__, e))]
+    if out != ref_out:
+        res.append(('C17/after/faithful', 'outcomes', 'copy', 'outcomes of %r on the copy are %r, on an uncopied '
+                    'object %r' % (list(post), out, ref_out)))
+    sc = snap(c)
+    exp_dropped = _with_calls(e_post, L0 + later)          # pending calls not made on the copy
+    exp_delivered = e_post                                   # pending calls made on the copy before `post`
+    d = diff(exp_dropped, sc)
+    if d and diff(exp_delivered, sc):
+        res.append(('C17/after/faithful', _dpath(d, exp_dropped, sc), 'copy', 'after %r on the copy taken inside '
+                    '%s: %s is %r, an uncopied object has %r (or, with the calls pending at the copy point, %r)'
+                    % (list(post), ctx, d, _at(sc, d), _at(exp_dropped, d), _at(exp_delivered, d))))
+    s2 = snap(o)
+    d = diff(e_end, s2)
+    if d:
+        res.append(('C17/after/independent', _dpath(d, e_end, s2), 'copy', 'after %r on the copy the original '
+                    'changed at %s: %r -> %r' % (list(post), d, _at(e_end, d), _at(s2, d))))
+    # ---- post-history on the original (the copy must stay as it is now, whatever it is)
+    try:
+        out = apply_post(o, post)
+    except Exception as e:
+        return res + [('C17/after/faithful', 'exception:' + type(e).__name__, 'orig',
+                       'history %r on the original raised %s: %s' % (list(post), type(e).__name__, e))]
+    if out != ref_out:
+        res.append(('C17/after/faithful', 'outcomes', 'orig', 'outcomes of %r on the original are %r, on an '
+                    'uncopied object %r' % (list(post), out, ref_out)))
+    s1 = snap(o)
+    d = diff(e_post, s1)
+    if d:
+        res.append(('C17/after/faithful', _dpath(d, e_post, s1), 'orig', 'after %r on the original: %s is %r, an '
+                    'uncopied object has %r' % (list(post), d, _at(s1, d), _at(e_post, d))))
+    s2 = snap(c)
+    d = diff(sc, s2)
+    if d:
+        res.append(('C17/after/independent', _dpath(d, sc, s2), 'orig', 'after %r on the original the copy changed '
+                    'at %s: %r -> %r' % (list(post), d, _at(sc, d), _at(s2, d))))
     return res
 
 
